@@ -94,7 +94,10 @@ class PDFPage:
             else:
                 # This looks broken. obj.objid means obj could be either
                 # PDFObjRef or PDFStream, but neither is valid for dict_value.
-                object_id = obj.objid  # type: ignore[attr-defined]
+                object_id = getattr(obj, "objid", None)
+                if object_id is None:
+                    # not an indirect reference: there is no page tree node here
+                    return
                 object_properties = dict_value(obj).copy()
 
             # Avoid recursion errors by keeping track of visited nodes
